@@ -20,7 +20,7 @@ def opHistogram (j : Json) : R Json := do
 
 /-- ops contributed by the component files -/
 def allOps : List (String × (Json → R Json)) :=
-  Jaqal.Emulator.ops ++ Jaqal.NumText.ops ++ Jaqal.UnitTiming.ops ++ Jaqal.Walk.ops ++ Jaqal.Result.ops ++ Jaqal.ParserOps.ops ++ Jaqal.FrontEnds.ops ++ Jaqal.GateDef.ops ++ Jaqal.PassOps1.ops ++ Jaqal.UsedQubits.ops ++ Jaqal.Builder.ops ++ Jaqal.GenOps.ops ++ Jaqal.FillIn.ops ++ Jaqal.Pipeline.ops ++ Jaqal.Passes.ops ++ Jaqal.RunModel.ops ++ Jaqal.OutputList.ops
+  Jaqal.Emulator.ops ++ Jaqal.NumText.ops ++ Jaqal.UnitTiming.ops ++ Jaqal.Walk.ops ++ Jaqal.Result.ops ++ Jaqal.ParserOps.ops ++ Jaqal.FrontEnds.ops ++ Jaqal.GateDef.ops ++ Jaqal.PassOps1.ops ++ Jaqal.UsedQubits.ops ++ Jaqal.Builder.ops ++ Jaqal.GenOps.ops ++ Jaqal.FillIn.ops ++ Jaqal.Pipeline.ops ++ Jaqal.Passes.ops ++ Jaqal.RunModel.ops ++ Jaqal.OutputList.ops ++ Jaqal.UnitTimingCircuit.ops
 
 def opGrammarTable (_ : Json) : R Json :=
   pure (jofList (fun (p : String × List String) => Json.arr #[.str p.1, jofList Json.str p.2]) Jaqal.Grammar.productions)
